@@ -101,7 +101,13 @@ def check_minimize_based(case, stats, data, name):
         Lp[idx] += h
         Lm[idx] -= h
         fd = (oracle(Lp, data.X, y)[0] - oracle(Lm, data.X, y)[0]) / (2 * h)
-        if abs(fd - lg[idx]) > 1e-4 * gs + 1e-10 * mag / h + gfloor:
+        Lp2, Lm2 = L.copy(), L.copy()
+        Lp2[idx] += h / 2
+        Lm2[idx] -= h / 2
+        fd2 = (oracle(Lp2, data.X, y)[0] - oracle(Lm2, data.X, y)[0]) / h
+        trunc = 4 * abs(fd - fd2)            # Richardson estimate of the truncation error of the stencil
+        fd = fd2
+        if abs(fd - lg[idx]) > 1e-4 * gs + 1e-10 * mag / h + gfloor + trunc:
           raise Violation('C10/%s/finite-difference' % name, 'entry %s: FD of documented value %r vs library gradient %r' % (idx, fd, lg[idx]))
     nontrivial = (kk < d or case['init'] != 'auto') and unsat
     stats.case(dict(case=case, point=label), nontrivial, [name, 'point:' + label, 'init:' + case['init'],
